@@ -83,3 +83,7 @@ SPEC = {'id': 'C20',
                  'constructor-phase accesses are ordered before publication']}
 
 SPEC['thorough_passes'] = 3  # the thorough tier runs the whole harness under this many consecutive seeds
+
+SPEC['rule'] += (' Added after round five: the poll loop keeps polling the broker beside the real checkNATType; a relay that streams while the client leaves; '
+    'a popped client peer that goes away unread; new broker channels built while a rendezvous is in flight; the client NAT check over two loopback STUN responders beside Collects; '
+    'three sessions on the proxy own relay URL.')
